@@ -52,7 +52,14 @@ CORE_THEOREMS = (["PersimVerif.C07.bottleneck_" + x for x in _SPEC_LAWS] + ["Per
                                                               "scale", "vs_empty")]
                  + ["PersimVerif.C07.model_ws_" + x for x in ("symm", "triangle", "nonneg", "perm_invariant", "reorder_zero",
                                                               "add_diagonal", "add_diagonal_left", "translate", "scale", "vs_empty")]
-                 + ["PersimVerif.C07.model_bn_le_ws"])
+                 + ["PersimVerif.C07.model_bn_le_ws"]
+                 + ["PersimVerif.C07.model_bn_" + x for x in ("triangle_oracles", "scale_nonneg", "add_diagonal_list",
+                                                              "add_diagonal_list_left", "vs_empty_left")]
+                 + ["PersimVerif.C07.model_ws_" + x for x in ("solver_irrelevant", "triangle_solvers", "add_diagonal_list",
+                                                              "add_diagonal_list_left", "vs_empty_left")]
+                 # the guard birth <= death is necessary: what the models return on [(1,0)] against itself
+                 + ["PersimVerif.C07." + x for x in ("improper_bn_negative", "improper_ws_negative", "improper_bn_le_ws_fails",
+                                                     "improper_ws_triangle_fails")])
 PROP_FILES = ["PersimVerif/Props/C07.lean", "PersimVerif/Props/C07Model.lean", "PersimVerif/Lemmas/MatchingLaws.lean",
               "PersimVerif/Lemmas/PermEquiv.lean", "PersimVerif/Lemmas/MatchingReindex.lean"]
 
@@ -424,7 +431,7 @@ def replay(ctx, rep):
 
 
 MANIFEST = {
-    "text": "Proof (144 theorems in Props/C07.lean, Props/C07Model.lean and the three lemma files, of which 41 are the core statements: the 8 "
+    "text": "Proof (174 theorems in Props/C07.lean, Props/C07Model.lean and the three lemma files, of which 55 are the core statements - since the second audit also three-oracle / three-solver triangle laws, list forms of the added-diagonal-point laws, left-side empty laws, scaling by 0, and the NECESSITY of birth <= death (improper_*: the models return -1/2 and -sqrt 2 on [(1,0)] against itself, as the code does): the 8 "
             "laws x 2 distances + bottleneck_le_wasserstein + the two List.Perm forms for the specification values, and 22 model-level laws "
             "model_bn_* / model_ws_* / model_bn_le_ws; the rest are facts about the two cost systems, the generic matching laws they "
             "instantiate and list/index bridges): every law of the statement is a Lean theorem about the specification values (minimum over "
